@@ -22,6 +22,77 @@ def file_hash(p):
         return hashlib.sha1(f.read()).hexdigest()
 
 
+def _retained_history(path, seed, big):
+    """write A; r1 = read; write B; r2 = read; write r1 (load-modify-save); r3 = read -- every returned graph must stay
+    what it was when it was returned.  Runs in a child process (a reader that keeps the file mapped dies with SIGBUS
+    when the file is truncated under it)."""
+    import random
+    import nir
+    rng = random.Random(seed)
+    g = np.random.default_rng(seed)
+    n = 420 if big else rng.choice([3, 40])
+    m = rng.choice([n, n + 7])
+
+    def graph(tag):
+        w = g.standard_normal((n, m))
+        return nir.NIRGraph(nodes={"in": nir.Input(np.array([m])), "fc": nir.Affine(weight=w, bias=g.standard_normal(n)),
+                                   "out": nir.Output(np.array([n]))}, edges=[("in", "fc"), ("fc", "out")],
+                            metadata={"tag": tag})
+    A, B = graph("A"), graph("B")
+    snap = lambda x: compare.snapshot(x)
+    nir.write(path, A)
+    r1 = nir.read(path); s1 = snap(r1)
+    if compare.graph_diff(A, r1):
+        return "first read differs from the graph written"
+    nir.write(path, B)
+    if snap(r1) != s1:
+        return "a graph returned by an earlier read changed when the path was overwritten"
+    r2 = nir.read(path); s2 = snap(r2)
+    if compare.graph_diff(B, r2):
+        return "read does not return the most recent write"
+    r1.nodes["fc"].bias[...] = 0.5          # modify what was loaded, save it to the same path
+    nir.write(path, r1)
+    if snap(r2) != s2:
+        return "a graph returned by an earlier read changed when the path was overwritten (load-modify-save)"
+    r3 = nir.read(path)
+    if compare.graph_diff(r1, r3):
+        return "load-modify-save does not read back what was saved"
+    return None
+
+
+def retained_results(ctx, tmpdir):
+    import multiprocessing as mp
+    rng = ctx.rng
+    for i in range(ctx.n(6, 16)):
+        big = i % 2 == 0
+        seed = rng.randrange(2 ** 31)
+        path = os.path.join(tmpdir, f"keep{i}.nir")
+        case = {"op": "retained_results", "seed": seed, "arrays_over_1MiB": big}
+        ctx.case(case); ctx.count("retained_histories"); ctx.count("retained_big" if big else "retained_small")
+        parent, child = mp.Pipe(duplex=False)
+
+        def work(conn=child, path=path, seed=seed, big=big):
+            try:
+                conn.send(("done", _retained_history(path, seed, big)))
+            except BaseException as e:  # noqa
+                conn.send(("raised", f"{type(e).__name__}: {e}"))
+        p = mp.get_context("fork").Process(target=work)
+        p.start()
+        p.join(120)
+        msg = parent.recv() if parent.poll() else None
+        if p.is_alive():
+            p.kill()
+            ctx.violate(case, "write/read history did not finish", {"site": "retained", "what": "hang"})
+        elif msg is None:
+            ctx.violate(case, "the process was killed while running a write/read/overwrite history on one path",
+                        {"site": "retained", "what": "killed"}, observed={"exitcode": p.exitcode})
+        elif msg[0] == "raised":
+            ctx.violate(case, "a call of the write/read/overwrite history raised", {"site": "retained", "what": "raised"},
+                        observed=msg[1])
+        elif msg[1]:
+            ctx.violate(case, msg[1], {"site": "retained", "what": "changed"})
+
+
 def run(ctx):
     import nir
     from nir.serialization import read_version
@@ -42,7 +113,9 @@ def run(ctx):
                 except Exception:
                     continue
             # nested variants that share names with other graphs: residue would show
-            base = os.path.join(tmpdir, f"reg{i}.nir")
+            # (the register is the *path*, whatever its spelling: suffixes that tools treat specially included)
+            base = os.path.join(tmpdir, rng.choice([f"reg{i}.nir", f"reg{i}.nir", f"reg{i}.tmp", f"reg{i}.nir.tmp", f"reg{i}",
+                                                    f"reg{i}.h5", f"reg.{i}.bak", f"reg{i}.tmp.nir", f"reg{i}.part", f".reg{i}"]))
             n_ops = rng.randrange(3, 9 if ctx.tier == "quick" else 16)
             ops, last = [], None
             history = []
@@ -61,6 +134,11 @@ def run(ctx):
                         nir.write(target, pool[k][1])
                         last = k
                         mobs.append({"done": True, "open": 0})
+                        if not os.path.isfile(base):
+                            ctx.violate({"op": "history", "ops": history, "path": os.path.basename(base)},
+                                        "the path does not exist after a successful write",
+                                        {**sig, "what": "missing-after-write"}, observed=sorted(os.listdir(tmpdir))[:6])
+                            ok = False; break
                     except Exception as e:  # noqa
                         ctx.violate({"op": "history", "ops": history}, "write to an existing path failed",
                                     {**sig, "what": "write-raised"}, observed=f"{type(e).__name__}: {e}")
@@ -138,6 +216,7 @@ def run(ctx):
                                 observed=f"{type(e).__name__}: {e}")
                 finally:
                     f.close()
+        retained_results(ctx, tmpdir)
         ctx.compare("histories", cases, obs, reqs)
     finally:
         import shutil
